@@ -171,8 +171,14 @@ def oracle(pool, smax, case, recs):
                 cur = q["d"]
                 if cur > 0 and "own" in q:
                     reg, en = q["own"]
-                    acc = (reg == 2 or (reg == 1 and en == 1)) and p["lvl"] <= smax
+                    own_acc = reg == 2 or (reg == 1 and en == 1)
+                    acc = own_acc and p["lvl"] <= smax
                     want = [cur - 1] if acc else []
+                    if own_acc and not acc and k == "emit" and [d[0] for d in dels] == [cur - 1]:
+                        vio.append(("emission at %s on thread %d was delivered to collector %d although the callsite's level is above the "
+                                    "CONFIGURED compile-time cap (%d): the callsite should have been compiled out" % (p, o[1], cur - 1, smax), i))
+                        judged += 1
+                        continue
                 elif cur == 0:
                     acc, want = False, []
                 else:
@@ -274,7 +280,9 @@ def run(ctx):
     D.check_source_summary(ctx, rep, d, g)
     # ---- implementation: default build, the capped build, two builds without debug assertions (thorough adds a plain release build)
     BUILD_OF_TAG = {"max_level_info": {"capped": True}, "nodebugassert__max_level_info__release_max_level_trace": {"variant": "rel_trace"},
-                    "nodebugassert__max_level_info": {"variant": "rel_info"}, "release": {"release": True}}
+                    "nodebugassert__max_level_info": {"variant": "rel_info"}, "release": {"release": True},
+                    "max_level_info__max_level_debug": {"variant": "info_debug"},
+                    "nodebugassert__release_max_level_info__release_max_level_debug": {"variant": "rel_info_debug"}}
     replay_tag = "debug"
     if ctx.replay:
         import json
@@ -301,7 +309,10 @@ def run(ctx):
         builds = [("max_level_info", {"capped": True}, 2000 if not ctx.thorough() else 8000),
                   # builds WITHOUT debug assertions (cargo --release): the release_max_level_* family applies
                   ("nodebugassert__max_level_info__release_max_level_trace", {"variant": "rel_trace"}, 700 if not ctx.thorough() else 4000),
-                  ("nodebugassert__max_level_info", {"variant": "rel_info"}, 300 if not ctx.thorough() else 2000)]
+                  ("nodebugassert__max_level_info", {"variant": "rel_info"}, 300 if not ctx.thorough() else 2000),
+                  # two features of ONE family (cargo feature unification): the most restrictive one is the configured cap
+                  ("max_level_info__max_level_debug", {"variant": "info_debug"}, 400 if not ctx.thorough() else 2000),
+                  ("nodebugassert__release_max_level_info__release_max_level_debug", {"variant": "rel_info_debug"}, 300 if not ctx.thorough() else 2000)]
         if ctx.thorough():
             builds.append(("release", {"release": True}, 4000))
         for tag, kw, n in builds:
